@@ -62,7 +62,13 @@ class Ed25519Key(PKey):
             pkformat, data = self._read_private_key("OPENSSH", file_obj)
 
         if filename or file_obj:
-            signing_key = self._parse_signing_key_data(data, password)
+            try:
+                signing_key = self._parse_signing_key_data(data, password)
+            except ValueError as e:
+                # text fields that are not UTF-8, bcrypt parameters, a
+                # ciphertext that is not a multiple of the block size, a seed
+                # of the wrong length
+                raise SSHException("Invalid key: {}".format(e))
 
         if signing_key is None and verifying_key is None:
             raise ValueError("need a key")
